@@ -999,7 +999,7 @@ def eval_pure_call(module, name, vals):
     if key not in _PURE_PATHS:
         _PURE_PATHS[key] = enumerate_paths(module.functions[name], module)
     fn = module.functions[name]
-    env = {}
+    env = LazyEnv(module)
     for k, v in enumerate(vals):
         bits = int_bits_of(fn.args[k].ty)
         env[("arg", k)] = v & mask(bits) if bits else v
@@ -1066,3 +1066,26 @@ def const_table_load(m, x, env):
     if idx % esz or not (0 <= idx // esz < len(vals)):
         raise NoValue(x)
     return vals[idx // esz]
+
+
+class LazyEnv(dict):
+    """Environment for eval_concrete that also resolves, on demand, calls of module-local pure helpers (evaluated on their
+    concrete arguments) and loads from constant integer tables with evaluable subscripts."""
+
+    def __init__(self, module, base=None):
+        dict.__init__(self, base or {})
+        self.module = module
+
+    def __contains__(self, x):
+        if dict.__contains__(self, x):
+            return True
+        m = self.module
+        if x[0] == "call" and isinstance(x[1], str) and m.has_fn(x[1]) and x[1] in pure_functions(m):
+            self[x] = eval_pure_call(m, x[1], [eval_concrete(a, self) for a in x[2]])
+            return True
+        if x[0] == "ld" and ptr_parts(x[1])[0][0] == "g":
+            tv = const_table_load(m, x, self)
+            if tv is not None:
+                self[x] = tv
+                return True
+        return False
